@@ -3,8 +3,9 @@
 # Confirms a seeded change in a scratch worktree of /repo HEAD (never in /repo itself):
 #   demo fails with the change, the full existing suite passes with it, demo passes without it.
 # On success stores /verif/seeded/<ID>-<N>/{patch.diff,<demo>,verify.log}.
-ID=$1; N=$2; PKG=$3; PATCH=${4:-/tmp/seed/$ID/out/patch$N.diff}
-SRC=/tmp/seed/$ID/out
+ID=$1; N=$2; PKG=$3; BASE=${SEEDDIR:-/tmp/seed}; PATCH=${4:-$BASE/$ID/out/patch$N.diff}
+SRC=$BASE/$ID/out
+OUTN=${OUTN:-$N}
 WT=/tmp/rbv_$ID_$N_$$
 export GOFLAGS=-mod=mod GOPROXY=off GOSUMDB=off GOTOOLCHAIN=local
 git -C /repo worktree add --detach $WT HEAD >/dev/null 2>&1 || { echo "$ID-$N: cannot create worktree"; exit 3; }
@@ -13,7 +14,7 @@ trap cleanup EXIT
 cd $WT
 DEMO=$(ls $SRC/demo${N}* | head -1)
 if [ -d "$DEMO" ]; then echo "$ID-$N: demo is a directory (program) - handle manually"; exit 3; fi
-OUT=/verif/seeded/$ID-$N; mkdir -p $OUT; LOG=$OUT/verify.log; : > $LOG
+OUT=/verif/seeded/$ID-$OUTN; mkdir -p $OUT; LOG=$OUT/verify.log; : > $LOG
 if ! git apply --check $PATCH 2>>$LOG; then echo "$ID-$N: PATCH DOES NOT APPLY to HEAD (rebase by hand)"; exit 4; fi
 TESTS=$(grep -oE "^func (Test[A-Za-z0-9_]+)" $DEMO | awk '{print $2}' | paste -sd'|')
 # 1. demo without patch
